@@ -91,6 +91,11 @@ func (w *world) planFor(r *http.Request, tag string) *rig.Plan {
 	hdr := http.Header{}
 	for _, h := range ps.Headers {
 		hdr.Add(h[0], h[1])
+		if ps.Status == 304 && strings.EqualFold(h[0], "Content-Type") {
+			// the recording backend is a net/http server, which itself withholds
+			// Content-Type from a 304 (server.go suppressedHeaders): never on the wire
+			continue
+		}
 		pr.Header = append(pr.Header, h)
 	}
 	plan := &rig.Plan{Status: ps.Status, Header: hdr, Pause: time.Duration(ps.PauseMs) * time.Millisecond}
@@ -372,7 +377,12 @@ func (w *world) layout() []*connPlan {
 	runID := fmt.Sprintf("C08-%d", run.Seed)
 	mk := func(cp *connPlan, big, bigR int) *exchange {
 		sr := run.Rand(int64(1000 + id))
-		s := genSpec(sr, runID, id, cp.proto, big, bigR)
+		respCap := 1 << 20
+		if cp.proto == "h2raw" {
+			// the response is delivered in frames no larger than the client's window
+			respCap = min(256<<10, 512*cp.window)
+		}
+		s := genSpec(sr, runID, id, cp.proto, big, bigR, respCap)
 		s.Preserve = cp.preserve
 		id++
 		x := &exchange{s: s, conn: cp.stat, clientWindow: cp.window}
@@ -409,6 +419,9 @@ func (w *world) layout() []*connPlan {
 					bigResp--
 				}
 				xs = append(xs, mk(cp, big, bigR))
+			}
+			if r.Intn(3) == 0 {
+				xs[len(xs)-1].s.CloseConn = true
 			}
 			cp.batches = [][]*exchange{xs}
 		case "h2cc", "h2raw":
